@@ -8,6 +8,7 @@ import h5py
 import numpy as np
 from hypothesis import strategies as st
 
+from .. import oracles as orc
 from .. import build, gen, sim
 from ..engine import Result
 from . import c16
@@ -267,6 +268,27 @@ def check_case(spec):
                 res.label("discarded: terminal without boundary sites")
                 return res
             raise
+        # ---------------- the device read back from disk behaves identically: the same problem solved on it gives the same
+        # observables (|psi|, psi up to a global phase, mu up to its additive constant, currents) in every quantity
+        if spec["options"].get("terminal_psi") is None or spec["options"].get("terminal_psi") == 0:
+            try:
+                o1 = dataclasses.replace(opts, output_file=None)
+                sol1 = tdgl.solve(d1, o1, applied_vector_potential=make_A(spec["A"], d1, opts.field_units), terminal_currents=build.make_currents(spec["currents"], opts.solve_time),
+                                  disorder_epsilon=build.make_epsilon(spec["epsilon"]))
+                ta, tb = sol.tdgl_data, sol1.tdgl_data
+                fa = dict(psi=ta.psi, mu=ta.mu, supercurrent=ta.supercurrent, normal_current=ta.normal_current)
+                fb = dict(psi=tb.psi, mu=tb.mu, supercurrent=tb.supercurrent, normal_current=tb.normal_current)
+                if int(ta.state["step"]) != int(tb.state["step"]) or not np.array_equal(sol.dynamics.dt, sol1.dynamics.dt):
+                    res.fail("C14.device_behaviour", "the same problem on the device read back from disk takes other time steps")
+                else:
+                    cmp = orc.compare_frames(fa, fb)
+                    worst = max(cmp.values())
+                    res.stat("reloaded_device_run", worst)
+                    if worst > 1e-7:
+                        res.fail("C14.device_behaviour", f"the same problem solved on the device read back from disk gives other observables: {cmp}")
+            except RuntimeError as exc:
+                if "converge" not in str(exc) and "exactly singular" not in str(exc):
+                    raise
         A = sol.applied_vector_potential  # what the solution holds (numbers are wrapped into a ConstantField by the solver)
         paths = []
         if out_path is not None:
